@@ -581,6 +581,99 @@ def gen_server_case(real, rng, cid, n_iter=50, n_clients=3, hostile=0.3, mtu=150
     return lines, outs, records, log
 
 
+def udp_server_entry(real, items, block, mode):
+    """the second datagram entry point, `_UdpServer.run` (the reference socket loop of server.py): the scripted datagrams come out of a
+    fake socket, the server thread is a recorder; returns the (addr, datagram) pairs it queued"""
+    core.use_repo()
+    import mpgameserver.server as S
+    import mpgameserver.context as X
+    from mpgameserver.handler import EventHandler
+    ctxt = X.ServerContext(EventHandler(), real.server_ctxt("good").server_root_key)
+    blocked = set(str(b) for b in block)
+    if mode == "before":
+        ctxt.setBlockList(blocked)
+    elif mode == "replace":
+        ctxt.setBlockList({"250", "251"})
+    srv = S._UdpServer(ctxt, ("0.0.0.0", 1))
+    if mode in ("after", "replace"):
+        ctxt.setBlockList(blocked)
+    elif mode == "inplace":
+        ctxt.blocklist.update(blocked)
+    queued = []
+    feed = list(items)
+
+    class Sock:
+        def __init__(self, *a, **k):
+            pass
+
+        def setsockopt(self, *a):
+            pass
+
+        def bind(self, a):
+            pass
+
+        def fileno(self):
+            return -1
+
+        def close(self):
+            pass
+
+        def recvfrom(self, n):
+            if not feed:
+                ctxt._active = False
+                raise ConnectionResetError("end of the script")
+            addr, d = feed.pop(0)
+            return d[:n], addr
+
+    class Recorder:
+        def __init__(self, sock, c):
+            pass
+
+        def start(self):
+            pass
+
+        def append(self, addr, hdr, datagram):
+            queued.append((addr, datagram))
+    saved = (S.socket, S.UdpServerThread)
+    S.socket = types.SimpleNamespace(socket=Sock, AF_INET=0, SOCK_DGRAM=0, SOL_SOCKET=0, SO_REUSEADDR=0)
+    S.UdpServerThread = Recorder
+    try:
+        srv.run()
+    finally:
+        S.socket, S.UdpServerThread = saved
+    return queued
+
+
+def udp_entry_monitor(real, rng, case, recs, block, ctx, cap=12):
+    """both entry points decide alike: what TwistedServer.datagramReceived queued in the recorded run (compared with the model's `entry`
+    there) is what `_UdpServer.run` queues for the same datagrams and block list, whenever the list was installed"""
+    rs = [r for r in recs if r.get("items")]
+    for rec in (rng.sample(rs, cap) if len(rs) > cap else rs):
+        items = [(addr, d) for addr, d, _spec in rec["items"]]
+        mode = rng.choice(["before", "after", "replace", "inplace"])
+        want = [(addr, d) for (addr, d, _s), ok in zip(rec["items"], rec["accepted"]) if ok]
+        try:
+            got = udp_server_entry(real, items, block, mode)
+        except Exception as e:
+            ctx.failure("udp-entry-died", "_UdpServer.run let %s escape: %s" % (type(e).__name__, e), {"case": case, "at": len(case) - 2})
+            return True
+        ctx.count("udp-entry-datagrams", len(items))
+        for addr, d in got:
+            if addr[0] in set(str(b) for b in block):
+                ctx.failure("blocklisted-datagram-queued", "_UdpServer.run queued a datagram from block-listed %s (block list installed: %s)" %
+                            (addr, mode), {"case": case, "at": len(case) - 2, "datagram": d[:64].hex(), "mode": mode})
+                return True
+        if got != want:
+            extra = [x for x in got if x not in want][:1]
+            missing = [x for x in want if x not in got][:1]
+            ctx.failure("entry-points-differ", "_UdpServer.run and TwistedServer.datagramReceived decide differently: %s" %
+                        ("queued only by _UdpServer: %s %s..." % (extra[0][0], extra[0][1][:24].hex()) if extra else
+                         "dropped only by _UdpServer: %s %s..." % (missing[0][0], missing[0][1][:24].hex()) if missing else "order differs"),
+                        {"case": case, "at": len(case) - 2, "mode": mode})
+            return True
+    return False
+
+
 def post(case, out_lines):
     """projection applied to model and implementation output alike"""
     ops = connlib.answering_ops_srv(case)
